@@ -168,6 +168,7 @@ pub fn run_scenario_full(sc: &Scenario, verbose: bool) -> (RunResult, Vec<(usize
             stats.add("rx.discards", p.stat_discards);
             stats.add("rx.flushes_on_slot_expiry", p.stat_flushes);
             stats.add("probe.more_than_one_telegram_in_buffer", p.stat_multi_in_buffer);
+            stats.add("fault.transmitter_latency", p.stat_lagged_tx);
         }
     }
     for sl in &w.slaves {
